@@ -221,6 +221,7 @@ func c11Case(c *core.Ctx) *core.Result {
 	serial := 0
 	n := r.Range(3, tierN(c.Tier, 24, 60))
 	hfCalls, cycles := 0, 0
+	side := []int{0, 0, 0, 1, 1, 2}[r.Intn(6)]
 	loopOpen := false
 	repeats := 0
 	for i := 0; i < n && len(res.Findings) == 0; i++ {
@@ -236,6 +237,12 @@ func c11Case(c *core.Ctx) *core.Result {
 		case k < 55: // header/footer call
 			kind := kinds[r.Intn(3)]
 			footer := r.Bool()
+			switch side {
+			case 1:
+				footer = true // a document that only ever gets footers
+			case 2:
+				footer = false
+			}
 			serial++
 			tok := fmt.Sprintf("⟦h%d-%d⟧", c.Case, serial)
 			text := tok + gen.SafeString(r)
@@ -315,7 +322,15 @@ func c11Case(c *core.Ctx) *core.Result {
 		case k < 72: // page settings (create / modify the section element)
 			log = append(log, "PageSetting")
 			core.Catch(func() {
-				switch r.Intn(4) {
+				switch r.Intn(7) {
+				case 4:
+					// only looking at the settings, or asking for something that is refused: the section settings may come into
+					// being through these calls, with nothing in them yet
+					d.GetPageSettings()
+				case 5:
+					d.SetCustomPageSize(5, 5)
+				case 6:
+					d.SetPageMargins(-1, -1, -1, -1)
 				case 0:
 					d.SetPageMargins(20, 21, 22, 23)
 				case 1:
